@@ -459,8 +459,13 @@ def execute(scn):
             elif sm is not None:
                 if raised is not None:
                     bad("C13.valid-accepted", f"C13.valid-rejected@{c}+detector-assign", {"op": k, "exc": repr(raised)[:200]})
-                elif not same(cur, sm):
-                    bad("C13.set-value", f"C13.set-value@{c}+detector-assign", {"op": k})
+                else:
+                    want = sm
+                    if c == "photon":
+                        # an assignment: negative counts (an earlier '+' / '+=' of negative values may have left some) are clipped
+                        want = sm.clip(min=0.0) if isinstance(sm, xr.DataArray) else np.where(sm < 0, 0.0, sm).astype(sm.dtype)
+                    if not same(cur, want):
+                        bad("C13.set-value", f"C13.set-value@{c}+detector-assign", {"op": k})
             model[(d, c)] = cur
         # aliasing is not constrained by the statement: a container that shares its array object with the one
         # just operated on (e.g. after 'detB.pixel = detA.pixel') legitimately follows in-place changes
